@@ -32,7 +32,7 @@ META = {
         'A1 reals, real spaces',
     ],
     'assumptions': ['A1', 'A2', 'A5', 'A6', 'A7', 'positive scaling s > 0, sigma > 0'],
-    'not_decided': ['LpNorm <-> IndicatorLpUnitBall for general p, group norms, nuclear norm, KL pairs (log/exp integrands), QuadraticForm with operator, SeparableSum'],
+    'not_decided': ['LpNorm <-> IndicatorLpUnitBall for general p, group norms, nuclear norm, KL pairs (log/exp integrands), QuadraticForm with operator, SeparableSum: bounded functional-pool stand-in only'],
 }
 
 
